@@ -21,6 +21,22 @@
                 found.push(format!("WITNESS cache_hits_cause_no_disk_writes :: WriteOnInsertion: insert(1); get_or_fetch(1) [memory hit] => enqueues {:?}", after));
             }
         }
+        // (1b) write-on-insertion: a DISK hit through get_or_fetch (memory copy gone) must not enqueue either
+        {
+            let dir = tempfile::tempdir().unwrap();
+            let recorder = Recorder::default();
+            let hybrid = tests::open_with_for_witness(dir.path(), HybridCachePolicy::WriteOnInsertion, true, recorder.clone()).await;
+            hybrid.insert(1, vec![1; 7 * KB]);
+            hybrid.storage().wait().await;
+            hybrid.memory().remove(&1);
+            let before = recorder.dump().len();
+            let e = hybrid.get_or_fetch(&1, || async move { Ok::<_, Error>(vec![9; 7 * KB]) }).await.unwrap();
+            hybrid.storage().wait().await;
+            let after = recorder.dump();
+            if e.source() != Source::Outer && after.len() != before {
+                found.push(format!("WITNESS cache_hits_cause_no_disk_writes :: WriteOnInsertion: insert(1); memory.remove(1); get_or_fetch(1) [{:?} hit] => enqueues {:?}", e.source(), after));
+            }
+        }
         // (2) flush on close must skip entries advised in-memory-only
         {
             let dir = tempfile::tempdir().unwrap();
